@@ -29,7 +29,7 @@ PROOFS = {
             'InstantiatedMethod.__init__', 'InstantiatedStaticMethod.__init__', 'InstantiatedConstructor.__init__',
             'InstantiatedGlobalFunction.__init__', 'InstantiatedDeclaration.__init__', 'InstantiatedMethod.construct',
             'InstantiatedStaticMethod.construct', 'InstantiatedConstructor.construct', 'InstantiatedClass.__init__'],
-    'C02': ['is_scoped_template', 'instantiate_args_list', 'instantiate_return_type'],
+    'C02': ['is_scoped_template'],      # + the qualifier view of the three instantiators (EXTRA_SETS)
     # what the signature instantiators add on top of instantiate_type (assumed frame contract) changes no existing object
     'C13': ['instantiate_args_list', 'instantiate_return_type'],
     # an ignored class / declaration emits nothing: the pybind declaration binding is '' and the MEX preamble has no collector,
@@ -38,6 +38,13 @@ PROOFS = {
 }
 MODULES_EXTRA = {'C02': ['contracts.parser'], 'C13': ['contracts.parser'], 'C08': ['contracts.parser', 'contracts.instantiator'],
                  'C15': ['contracts.matlab_text', 'contracts.c06']}
+# further proof sets of a property, each with its own contract modules (a module may replace the view another one gives of the
+# same function): C02 verifies instantiate_type / instantiate_args_list / instantiate_return_type against contracts/c02_quals.py
+# (result is a new object, qualifiers kept, names / defaults / order / pair shape kept; frame of nested calls assumed)
+EXTRA_SETS = {
+    'C02': [(['instantiate_type', 'instantiate_args_list', 'instantiate_return_type'],
+             NAMES + ['contracts.parser', 'contracts.c02_quals'])],
+}
 CATS = {
     'C03': {'presence', 'readable'},
     'C04': {'forwarding'},
@@ -51,6 +58,8 @@ def prove(rep, pid, args):
     keys = PROOFS[pid]
     if keys:
         rep.run_proofs(keys, NAMES + MODULES_EXTRA.get(pid, []))
+    for ks, mods in EXTRA_SETS.get(pid, []):
+        rep.run_proofs(ks, mods)
     pr = rep.classify(rebaseline=args.rebaseline)
     return pr
 
